@@ -6,6 +6,7 @@ Line-protocol driver for C09: runs the StateDB model on the op lines the Go harn
   ab|sb|bal a n   non a n   code a hex   ss a k v   sui a   ca a   log p   pre h hex   ar g   sr g
   vc|vu a role status token stake misc   vr a   aw operator nonce amount   rw i,j,..   dg dlg val amt
   prep thash txIndex   snap   rev id   fin 0|1   root 0|1                               -> ok | ok <id> | crash
+  reopen                                  Commit(true) + state.New at the committed roots (Model.reopen) -> ok
   dump                                    canonical text of the live state              -> <text>
   gstat                                   steps outside the theorems' guard / steps     -> <n> <m>
   tdump                                   canonical text of the trie contents           -> <text>
@@ -160,6 +161,7 @@ def stepLine (ds : DS) (line : String) : DS × String :=
     match natList? a, natList? k, natList? h, natList? v with
     | some a, some k, some h, some v => ({ ds with u := { accs := a, keys := k, hashes := h, vals := v } }, "ok")
     | _, _, _, _ => (ds, "bad-op")
+  | ["reopen"] => ({ ds with s := normalize ds.u (reopen ds.s) }, "ok")
   | ["gstat"] => (ds, s!"{ds.guardFail} {ds.opsSeen}")
   | ["dump"] => (ds, dump ds)
   | ["tdump"] => (ds, tdump ds)
